@@ -176,12 +176,8 @@ def local_invariant(T, hist, view):
 def one_case(acc, route, S, T, hist, F, tip, src_facts, src_deltas, src_check):
     from breezy.branch import Branch
     from mc import world as mw
-    acc.n += 1
-    acc.count("cases:" + route)
     anc = hist.ancestors(tip)
     detail = {"route": route, "history": hist.describe(), "fallback_content": sorted(F), "tip": tip}
-    if F and (set(F) & anc) and not anc <= set(F) and hist.has_merge():
-        acc.nt((route, hist.key(), F, tip))
     try:
         do_route(route, S, T, hist, tip)
     except Exception as e:  # noqa
@@ -265,10 +261,23 @@ def check_history(hist, routes, acc):
             tips = [i for i in range(hist.n) if i not in F]
             if not tips:
                 continue
+            for route in routes:      # accounting depends on the enumeration only, never on the code under test
+                for tip in tips:
+                    acc.n += 1
+                    acc.count("cases:" + route)
+                    anc = hist.ancestors(tip)
+                    if F and (set(F) & anc) and not anc <= set(F) and hist.has_merge():
+                        acc.nt((route, hist.key(), F, tip))
             T = new_store()
             T.logging = False
             try:
-                make_fallback(T, hist, F, src_repo)
+                try:
+                    make_fallback(T, hist, F, src_repo)
+                except Exception as e:  # noqa
+                    acc.violation("fallback-setup:%s:%s" % (type(e).__name__, fw.innermost_repo_frame(e)),
+                                  {"route": "-", "history": hist.describe(), "fallback_content": sorted(F), "tip": tips[0],
+                                   "error": str(e)[:300]})
+                    continue
                 snap = T.walk()
                 first = True
                 for route in routes:
